@@ -160,4 +160,26 @@ CHECKS["C09"] = {
     "level_note": "valid tokens that are refused (over-rejection) are counted, not claimed either way; JWKS kid/alg pinning follows the measured behaviour of the key function library",
 }
 
+CHECKS["C10"] = {
+    "subs": [
+        {"pkg": "sys", "test": "TestC10Endpoints", "quick": 64, "thorough": 3000, "shards_quick": 8, "shards_thorough": 12, "shrinktime": "10s", "timeout_quick": 900, "timeout_thorough": 7200},
+        {"pkg": "sys", "test": "TestC10Tenants", "quick": 96, "thorough": 4000, "shards_quick": 8, "shards_thorough": 12, "shrinktime": "10s", "timeout_quick": 900, "timeout_thorough": 7200},
+    ],
+    "engine": "SYS",
+    "level_text": "Generated endpoint-claim sets, addressing modes (Host label, header, conflicting, TCP path, listen path, local and forwarded) and tenant tables against real protected ports with stamping upstreams of near-miss endpoint names; acceptance must equal membership of the routed endpoint in the claim list in both directions, and the serving upstream must be of the checked endpoint; tenant pairings are checked exhaustively per drawn table. Exploration only.",
+    "technique": "PBT (rapid) on real servers; oracle = claim-membership model + upstream stamps (checked == routed)",
+    "level_note": SYS_NOTE,
+}
+
+CHECKS["C07"] = {
+    "subs": [
+        {"pkg": "sys", "test": "TestC07Adapter", "quick": 400, "thorough": 30000, "shards_quick": 8, "shards_thorough": 16, "shrinktime": "10s", "timeout_quick": 900, "timeout_thorough": 7200},
+        {"pkg": "sys", "test": "TestC07Tunnel", "quick": 64, "thorough": 2500, "shards_quick": 8, "shards_thorough": 12, "shrinktime": "10s", "timeout_quick": 900, "timeout_thorough": 7200},
+    ],
+    "engine": "SYS",
+    "level_text": "Generated chunking schedules (write sizes at WebSocket length-encoding and yamux window edges, read-buffer cycles, fragmented and empty messages, both directions concurrently) over the WebSocket adapter and over complete tunnels (dialer / forwarder, one or two nodes, SDK listener / agent TCP proxy); the received stream must equal the written position-dependent pattern and a close at either end must be observed at the other and release the server's streams. Exploration only.",
+    "technique": "PBT (rapid) with a round-trip (echo) oracle on a position-dependent byte pattern; close-propagation observed at the far end",
+    "level_note": SYS_NOTE + "; close racing unread data is not asserted (TCP may legally cut the tail)",
+}
+
 NOT_APPLICABLE = {}
